@@ -17,7 +17,7 @@ PFIELDS = ["hours", "minutes", "seconds", "milliseconds", "ticks", "nanoseconds"
 
 META = {
     "property": "C10",
-    "proof_modules": ["PyodaProofs.C10"],
+    "proof_modules": ["PyodaProofs.C10", "PyodaProofs.GenAgreeC10"],
     "drivers": ["drv_timeofday"],
     "theorems": [
         "Pyoda.C10.localTime_inv_factories", "Pyoda.C10.localTime_inv", "Pyoda.C10.factories_raise_iff",
@@ -26,6 +26,27 @@ META = {
         "Pyoda.C10.addLocalDateTime_exact",
         "Pyoda.C10.addLocalDateTime_raises_iff", "Pyoda.C10.plusPeriod_exact", "Pyoda.C10.plusPeriod_order",
         "Pyoda.C10.unitsBetween_trunc", "Pyoda.C10.compare_iff",
+        # agreement of the definitions generated from the Python source (tools/py2lean.py) with the model
+        "Pyoda.GenAgree.C10.gen_LocalTime_ctor_eq", "Pyoda.GenAgree.C10.gen_LocalTime_new_eq",
+        "Pyoda.GenAgree.C10.gen_LocalTime_fromHMSMsT_eq", "Pyoda.GenAgree.C10.gen_LocalTime_fromHMST_eq",
+        "Pyoda.GenAgree.C10.gen_LocalTime_fromHMSNTrusted_eq", "Pyoda.GenAgree.C10.gen_LocalTime_fromHMSN_eq",
+        "Pyoda.GenAgree.C10.gen_LocalTime_fromNanosSinceMidnight_eq",
+        "Pyoda.GenAgree.C10.gen_LocalTime_fromTicksSinceMidnight_eq",
+        "Pyoda.GenAgree.C10.gen_LocalTime_fromMillisecondsSinceMidnight_eq",
+        "Pyoda.GenAgree.C10.gen_LocalTime_fromSecondsSinceMidnight_eq",
+        "Pyoda.GenAgree.C10.gen_LocalTime_fromMinutesSinceMidnight_eq",
+        "Pyoda.GenAgree.C10.gen_LocalTime_fromHoursSinceMidnight_eq", "Pyoda.GenAgree.C10.gen_LocalTime_hour_eq",
+        "Pyoda.GenAgree.C10.gen_LocalTime_clockHourOfHalfDay_eq", "Pyoda.GenAgree.C10.gen_LocalTime_minute_eq",
+        "Pyoda.GenAgree.C10.gen_LocalTime_second_eq", "Pyoda.GenAgree.C10.gen_LocalTime_millisecond_eq",
+        "Pyoda.GenAgree.C10.gen_LocalTime_microsecond_eq", "Pyoda.GenAgree.C10.gen_LocalTime_tickOfDay_eq",
+        "Pyoda.GenAgree.C10.gen_LocalTime_tickOfSecond_eq", "Pyoda.GenAgree.C10.gen_LocalTime_nanosecondOfSecond_eq",
+        "Pyoda.GenAgree.C10.gen_LocalTime_nanosecondOfDay_eq", "Pyoda.GenAgree.C10.gen_LocalTime_beq_eq",
+        "Pyoda.GenAgree.C10.gen_LocalTime_bne_eq", "Pyoda.GenAgree.C10.gen_LocalTime_lt_eq",
+        "Pyoda.GenAgree.C10.gen_LocalTime_le_eq", "Pyoda.GenAgree.C10.gen_LocalTime_gt_eq",
+        "Pyoda.GenAgree.C10.gen_LocalTime_ge_eq", "Pyoda.GenAgree.C10.gen_LocalTime_compareTo_eq",
+        "Pyoda.GenAgree.C10.gen_TimeUnit_addLocalTime_eq",
+        "Pyoda.GenAgree.C10.gen_TimeUnit_addLocalTimeWithExtraDays_eq", "Pyoda.GenAgree.C10.gen_Duration_toNanos_eq",
+        "Pyoda.GenAgree.C10.gen_TimeUnit_getUnitsInDuration_eq",
     ],
     "trusted_base": [
         "CPython int arithmetic; decimal division exact for operands below 10^27 (sampled by C03 suite prelude.tdiv) - used only by the "
@@ -33,6 +54,16 @@ META = {
         "date carry: LocalDate.plus_days / plus_weeks abstracted to a range check of the day number against the calendar's "
         "[min_days, max_days] (tied to the code by suite ldt.* in 19 calendars; the calendars themselves are C01/C09)",
         "int(NANOSECONDS_PER_DAY / unit_nanoseconds) is exact for the seven units (float quotient of integers below 2^53)",
+        "translator tools/py2lean.py (second tie, besides the correspondence suites): LocalTime's constructor, factories, accessors and "
+        "comparisons and _TimePeriodField._add_local_time / _add_local_time_with_extra_days / _get_units_in_duration (listed under C10 in "
+        "tools/py2lean_targets.py) are re-translated from the current Python source on each run into lean/PyodaGen/C10.lean and proved equal "
+        "to the hand-written model for all inputs (PyodaProofs/GenAgreeC10.lean). Trusted there: Python int = Lean Int; // and % = "
+        "Int.fdiv/Int.fmod (run-time divisors through a ZeroDivisionError check); >> by a constant = Int.shiftRight; raising calls bound "
+        "left-to-right in Except PyExc; if-statements by tail duplication; __init__ / `self = super().__new__(cls)` + field assignment = "
+        "structure literal; the two instance attributes of _TimePeriodField are parameters instantiated with (u.nanos, u.unitsPerDay) per unit; "
+        "helpers _towards_zero_division, _csharp_modulo, _int32_overflow, _int64_overflow, _check_argument_range hand-mapped. Not translated: "
+        "plus_hours ... plus_nanoseconds (go through metaclass properties and the float division in _TimePeriodField.__init__), "
+        "_add_local_date_time, LocalDateTime.plus(Period) (correspondence only)",
     ],
     "partial": [
         "plus_years/plus_months inside plus(Period) are taken from the real code (day number after them is an op argument); their laws are C09",
